@@ -211,7 +211,7 @@ func genCutCase(r *sim.Rng, tier string, idx int) *RCase {
 	switch r.Weighted([]int{5, 2, 3, 3}) {
 	case 0: // single-stream xz
 		if r.Bool() {
-			w := genXZWCase(r, "quick", 0, false)
+			w := genXZWCase(r, "src", 0, false)
 			small(w, lim)
 			c.Stream = StreamRecipe{Kind: "lib", W: w}
 		} else {
@@ -221,7 +221,7 @@ func genCutCase(r *sim.Rng, tier string, idx int) *RCase {
 		c.Stream = genMulti(r, tier, true)
 	case 2: // raw LZMA2
 		if r.Bool() {
-			w := genL2WCase(r, "quick", false)
+			w := genL2WCase(r, "src", false)
 			small(w, lim)
 			c.Stream = StreamRecipe{Kind: "lib", W: w}
 			c.RDict = w.L2.EffDictCap()
@@ -231,7 +231,7 @@ func genCutCase(r *sim.Rng, tier string, idx int) *RCase {
 		}
 	default: // classic LZMA, three termination modes
 		if r.Bool() {
-			w := genLZWCase(r, "quick", false, false)
+			w := genLZWCase(r, "src", false, false)
 			small(&w.W, lim)
 			if w.W.LZ.HasSize() {
 				w.W.LZ.Size = int64(w.W.Payload.Len())
